@@ -511,6 +511,7 @@ pub fn run(ctx: &Ctx) -> PropResult {
         let v = if f < 6 { gen_value(rng, n as i128, f + 4) as u32 } else { 0 };
         judge_time_op(rec, n, off, f, v);
     }));
+    wls.push(Workload::cases("offset_local_twins", ctx.count(6_000, 200_000), |rec, _, rng| super::localzone::twin_case(rec, rng, "C09", super::walk::Family::SetClear)));
     wls.push(Workload::cases("api_walks", ctx.count(30_000, 1_500_000), |rec, _, rng| super::walk::walk(rec, rng, "C09", super::walk::Family::SetClear)));
     let out = run_workloads(ctx, wls);
     let mut meta = PropMeta::default();
